@@ -21,6 +21,7 @@ THOROUGH_DEPTH = 6      # thorough tier = this many times the base thorough budg
 TIME_CAP = {"quick": 250, "thorough": 2400}
 DEG = np.pi / 180.0
 WINDOW = 12          # faults are enumerated inside the first WINDOW samples
+DEAD_RECKONERS = ("Madgwick", "Mahony", "AQUA")
 K_BURST = 1500       # recovery samples after a long burst (EKF freezes its attitude during an accelerometer dropout: up to ~8 deg to recover from)
 TOL_UNIT = 1e-9
 
@@ -54,7 +55,7 @@ FILTERS = {
     "Complementary/MARG": ("gam", lambda F, g, a, m, d: F.Complementary(g, a, m), 300, 600, 1.0 * DEG, []),
 }
 ROUTES = list(FILTERS)
-REGIONS = {"window:interior": 2000, "window:first-sample": 200, "burst:long": 16, "burst:repeated": 16, "short": 60}
+REGIONS = {"window:interior": 2000, "window:first-sample": 200, "burst:long": 16, "burst:repeated": 16, "short": 60, "burst:turning": 4}
 THOROUGH_QUOTA_MULT = 1
 PROBES = [("ahrs.filters.madgwick", "Madgwick.updateIMU"), ("ahrs.filters.madgwick", "Madgwick.updateMARG"), ("ahrs.filters.mahony", "Mahony.updateIMU"),
           ("ahrs.filters.mahony", "Mahony.updateMARG"), ("ahrs.filters.ekf", "EKF.update"), ("ahrs.filters.ukf", "UKF.update"),
@@ -71,18 +72,18 @@ ASSUMPTIONS = ["refusal = ValueError raised by the constructor/step; any other e
                "zeroed gyroscope rows are part of the fault space; filters treat a null rate as 'no new data' and return the previous attitude"]
 
 
-def trajectory(rng, n, dt=0.01):
+def trajectory(rng, n, dt=0.01, wmax=0.3):
     """Consistent slowly rotating sensor: body rates w, attitude q (conv: measurement = R(q)^T ref), gyro with bias and noise."""
     dip = float(rng.uniform(-70, 70))
     d = np.radians(dip)
     mref = np.array([np.cos(d), 0.0, np.sin(d)])
     q = gens.unit(rng)
-    w = gens.axis(rng) * gens.logu(rng, 0.02, 0.3)
+    w = gens.axis(rng) * (gens.logu(rng, 0.02, 0.3) if wmax <= 0.3 else float(rng.uniform(0.5, 1.0)) * wmax)
     bias = gens.axis(rng) * gens.logu(rng, 1e-4, 1e-2)
     G_, A, M = [], [], []
     for t in range(n):
         w = w + rng.standard_normal(3) * 0.01
-        w *= min(1.0, 0.3 / np.linalg.norm(w))
+        w *= min(1.0, wmax / np.linalg.norm(w))
         q = rq.qnormalize(rq.qmul(q, rq.qexp_pure(w * dt / 2)))
         R = rq.refR(q)
         A.append(R.T @ np.array([0, 0, 9.81]) + rng.standard_normal(3) * 0.01)
@@ -140,6 +141,22 @@ def generate(rng, tier, shard, nshards):
             subs = [s for kk in range(1, len(sensors) + 1) for s in itertools.combinations(sensors, kk)]
             sub = "".join(subs[int(rng.integers(len(subs)))])
             yield Case(name, "burst:repeated" if repeated else "burst:long", g=g, a=a, m=m, dip=dip, sensors=sub, mask=mask)
+
+    # the body keeps turning (up to 1.5 rad/s) while every field sensor is out for 0.5 - 1.5 s: the filters that dead-reckon through an outage
+    # (C08 names them) come out of it where the gyroscope took them, so the way back to the fault-free run is as short as after any other burst
+    for name, (sensors, _, K, K1, tol, _) in FILTERS.items():
+        if not name.startswith(DEAD_RECKONERS) or tol is None:
+            continue
+        for i in range(1 if tier == "quick" else gens.reps(4, tier)):
+            k += 1
+            if k % nshards != shard:
+                continue
+            n = 450 + K_BURST
+            g, a, m, dip = trajectory(rng, n, wmax=float(rng.uniform(0.8, 1.5)))
+            mask = np.zeros(n, bool)
+            st = int(rng.integers(200, 300))
+            mask[st:st + int(rng.integers(50, 151))] = True
+            yield Case(name, "burst:turning", g=g, a=a, m=m, dip=dip, sensors=sensors.replace("g", ""), mask=mask)
 
 
 def nontrivial(case):
@@ -348,6 +365,15 @@ def check(case, ctx):
         ctx.le("K samples after the dropout the estimates are back within tolerance of the fault-free run", float(err.max()), tol,
                {"K": Kc, "tol_deg": float(np.degrees(tol)), "worst_deg": float(np.degrees(err.max())), "fault": what,
                 "divergence_right_after_fault_deg": float(np.degrees(diff(name, Q[min(last + 1, len(Q) - 1)], Qc[min(last + 1, len(Q) - 1)])))})
+
+    if case.region == "burst:turning" and Qc is not None and last + 1 < len(Q):
+        # Madgwick, Mahony and AQUA skip the correction and keep the prediction: through an outage of every field sensor they follow the gyroscope,
+        # so right after it they differ from the fault-free run by the gyroscope's own drift only (bias <= 0.01 rad/s, noise), however far the body turned
+        dur = int(mask.sum()) * 0.01
+        budget = 0.02 * dur + np.radians(2.0)          # (observed on the pinned tree: at most a third of this)
+        ctx.le("right after an outage of every field sensor a dead-reckoning filter is where the gyroscope took it (within the gyro drift of the fault-free run)",
+               float(diff(name, Q[last + 1], Qc[last + 1])), budget, {"outage_s": dur, "budget_deg": float(np.degrees(budget)), "fault": what,
+                                                                     "turned_deg_during_outage": float(np.degrees(np.linalg.norm(g[mask], axis=1).sum() * 0.01))})
 
 
 def static_evidence():
